@@ -429,6 +429,10 @@ func (c *Ctx) c09Redefined() {
 			{"func f(a int, b int) int { return a - b }; v := f(9, 2); v", "7"}, {"v := f(1, 2, 3); v", "ERR"}},
 		{{"func half(xs ...int) int { return xs[0] / 2 }; v := half(3); v", "1"}, {"func half(xs ...float64) float64 { return xs[0] / 2 }; v := half(3); v", "1.5"},
 			{"func half(xs ...uint8) uint8 { return xs[0] + xs[1] }; v := half(200, 100); v", "44"}, {"func half(x float64) float64 { return x / 4 }; v := half(3); v", "0.75"}},
+		// a call that spreads a slice has its argument count checked like every other call
+		{{"func sum(xs ...int) int {\n\tn := 0\n\tfor _, x := range xs {\n\t\tn += x\n\t}\n\treturn n\n}\nxs := []int{1, 2}\nv := sum(xs...); v", "3"}, {"v := sum(100, xs...); v", "ERR"}, {"v := sum(xs...) + 1; v", "4"},
+			{"func g(a int, ys ...int) int { return a*100 + len(ys) }\nv := g(7, xs...); v", "702"}, {"func h() int {\n\tkeep := 42\n\tg(xs...)\n\treturn keep\n}\nv := h(); v", "ERR"}, {"v := g(1, 2, xs...); v", "ERR"},
+			{"type U struct {\n\tn int\n}\nfunc (u *U) add(ys ...int) int { return u.n + len(ys) }\nu := &U{n: 5}\nv := u.add(xs...); v", "7"}, {"v := u.add(7, xs...); v", "ERR"}},
 		{{"type T struct {\n\tn int\n}\nfunc (t *T) m(a int) int { return t.n + a }\nt := &T{n: 5}\nv := t.m(1); v", "6"},
 			{"func (t *T) m(a int, more ...int) int { return t.n + a + len(more)*10 }\nv := t.m(1, 2, 3); v", "26"}, {"v := t.m(1); v", "6"}},
 	} {
